@@ -285,7 +285,8 @@ func PolygonProtoToS2Polygon(polygon *pb.PolygonProto) *s2.Polygon {
 			s2loops = append(s2loops, s2loop)
 		}
 	}
-	return s2.PolygonFromLoops(s2loops)
+	// NewPolygonProto writes holes in the opposite orientation to shells.
+	return s2.PolygonFromOrientedLoops(s2loops)
 }
 
 func MultiPolygonProtoToS2MultiPolygon(polygons *pb.MultiPolygonProto) geometry.MultiPolygon {
